@@ -146,6 +146,8 @@ func (e Env) ToolEnv(c *Case, world string) []string {
 		// short-lived tool processes: fewer runtime threads and less GC work double the throughput of a 16-shard campaign
 		"GOMAXPROCS=2",
 		"GOGC=400",
+		// pinned (it is the default here: a C compiler is installed): worlds may hold files constrained by the cgo tag
+		"CGO_ENABLED=1",
 	}
 	if d := os.Getenv("VP_COVER"); d != "" {
 		env = append(env, "GOCOVERDIR="+d)
